@@ -5,6 +5,7 @@ import SJ.Model.WF
 import SJ.Model.WFDense
 import SJ.Model.Stream
 import SJ.Model.Serialize
+import SJ.Model.SerializeEnc
 import SJ.Model.Stage1Bits
 import SJ.Model.Pipeline
 import SJ.Spec.Json
@@ -428,6 +429,14 @@ def step (st : Store) (line : String) : Store × String :=
       | .ok pj' => ({ st with pjs := st.pjs.insert dst pj' }, s!"ok {pj'.tape.size} {hex64 (fnvWords pj'.tape)}")
       | r => (st, resStr r (fun _ => ""))
     | _, _, _, _, _ => (st, "bad-op")
+  | ["reencode", blob] =>
+    -- an uncompressed serialized object must be exactly what the encoder model writes for its own sections
+    match unhex blob with
+    | none => (st, "bad-op")
+    | some b =>
+      match sectionsOfRaw b with
+      | none => (st, "not-raw")
+      | some sec => (st, if sec.strings.size == 0 ∧ encodeSections blkRaw sec == b then "same" else "differs")
   | ["deserraw", dst, blob] =>
     match unhex blob with
     | none => (st, "bad-op")
